@@ -34,6 +34,12 @@ func clientEntity(addr []uint) world.EntSpec {
 // read/write, description read-only) and a Measurement server, plus client features.
 func stdLocal(w *world.World) {
 	for _, a := range [][]uint{{1}, {2}} {
+		stdLocalEntity(w, a)
+	}
+}
+
+func stdLocalEntity(w *world.World, a []uint) {
+	{
 		e := w.AddLocalEntity(a, model.EntityTypeTypeCEM, 0)
 		world.AddLocalFeature(e, model.FeatureTypeTypeLoadControl, model.RoleTypeServer,
 			world.FuncSpec{Fn: fnLimit, R: true, W: true}, world.FuncSpec{Fn: fnLimitDesc, R: true})
